@@ -9,7 +9,10 @@ SPEC = dict(
          'PKI-verified, downloaded but signed by a rogue CA, HTTP 404, connection failure; certificate: absent, validity window ending before / exactly at / containing / '
          'starting exactly at / starting after the aggregation time, wrong key, altered PKI signature) x extending allowed or not x extender behaviour (10) under the user-publication, '
          'publications-file, key-based, calendar-based and general policies. The extender and the publications URL sit behind the simulated transport; the oracle is a '
-         'reference decision procedure written from the statement (OK / FAIL with the documented code / inconclusive / not-OK).',
+         'reference decision procedure written from the statement (OK / FAIL with the documented code / inconclusive / not-OK). Extender replies include one whose calendar chain '
+         'omits the aggregation time; the platform certificate store (OpenSSL default paths) holds only the rogue CA. Part reuse: ONE context verifies twice while its '
+         'anchors change in between (publications URL changed / cache lifetime passed / cached file set aside, with the server now holding a file with or without the '
+         'signature\'s publication; extender re-pointed to one with another calendar): the second verdict follows the anchors configured now.',
     bounds=dict(quick='all anchor kinds with the correct extender; the 9 deviating extender behaviours on the extension-needing scenarios (later-correct anchors, extending allowed)',
                 thorough='deviating extender behaviours on every extension-capable anchor kind, both consistent and inconsistent signatures'),
     technique='exhaustive product enumeration of anchors x extender behaviours at the transport seam against the real policy code; reference decision procedure as oracle',
